@@ -15,7 +15,8 @@ for d in sorted(glob.glob('/verif/seeded/C*')):
         out = 'obsolete — ' + m['status'][len('obsolete: '):][:160]
     elif q.get('detected'):
         first = ' '.join(q.get('first_lines') or [])
-        out = 'VIOLATION, no-failing-input-found (broken obligation named in the replay)' if 'no-failing-input-found' in first else 'VIOLATION with a concrete input'
+        no_input = not q['with_input'] if 'with_input' in q else 'no-failing-input-found' in first
+        out = 'VIOLATION, no-failing-input-found (broken obligation named in the replay)' if no_input else 'VIOLATION with a concrete input'
     else:
         out = 'NOT detected' if q else 'not run'
     rows.append('| %s | %s | `check.py %s quick` | %s | %s |' % (os.path.basename(d), ', '.join(files), m['property'], out, q.get('wall_s', '')))
